@@ -38,8 +38,12 @@ func streamC09(env *runEnv) {
 		var wg sync.WaitGroup
 		var backends []*tagBackend
 		for i := 0; i < n; i++ {
-			b := newTagBackend([]byte(strings.Repeat(fmt.Sprintf("<h%d-%d>", round, i), 2000)))
-			b.pace = 2 * time.Millisecond // keep the relay busy while the client goes through its script
+			// the host keeps sending for about a second: longer than any client script, so that every
+			// ending happens while the relay is busy
+			tag := fmt.Sprintf("<h%d-%d>", round, i)
+			b := newTagBackend([]byte(strings.Repeat(tag, (2<<20)/len(tag))))
+			b.piece = 4096
+			b.pace = 2 * time.Millisecond
 			backends = append(backends, b)
 		}
 		for i := 0; i < n; i++ {
